@@ -237,6 +237,21 @@ PROPS = {
         'level_note': 'Trusted: rustc front end + MIR/HIR, the extractor, rules/tables/c03_recursion_ok.json.',
         'technique': 'who-may-write + must-pass/back-edge progress rules over MIR, table invariants over HIR (rustc_private driver)',
     },
+    'C05': {
+        'module': 'c05',
+        'explanation': 'A narrow structural fragment (what an operator *gives* is defined only by this code, so values have no static '
+                       'oracle): sibling agreement between Parser::binary and Parser::binary_assign arm by arm (x op= y emits the opcodes '
+                       'of x op y) and between the scanner\'s token pairs; operand order in the three non-commutative handlers (first pop = '
+                       'right operand); every branch placeholder is patched (C04.B3) and loop back-jumps target the innermost recorded '
+                       'header.',
+        'assumptions': COMMON_ASSUME,
+        'not_decided': ['precedence / associativity table contents', 'value results and error kinds per operand kind',
+                        'statement-level control flow at run time', 'evaluate-once and left-to-right order of sub-expressions'],
+        'level_text': 'Decides E1-E3 only; explicitly a fragment of the property.',
+        'design_ref': 'DESIGN.md section 1, C05',
+        'level_note': 'Trusted: rustc front end + MIR, the extractor.',
+        'technique': 'sibling arm-by-arm agreement + argument-provenance rules over resolved MIR (rustc_private driver)',
+    },
 }
 
 NOT_APPLICABLE = {
